@@ -8,7 +8,7 @@ LEVEL_TEXT = ("Metrics.tla states the answer formula (Syntax: Prometheus text fo
               "metrics.Metrics serves every scenario over HTTP from harness implementations of the defs.API* interfaces, a strict "
               "parser written from the format documentation (checked in every run against lines rendered by the specification) "
               "records the samples, and TLC evaluates the formula on every answer (TraceMetrics.tla)")
-LEVEL_NOTE = ("bounded: at most 2 entities per kind, one string class per entity (the same string is the path name / session path of "
+LEVEL_NOTE = ("bounded: at most 2 entities per kind (quick: two entities for 6 kinds and for all kinds together, one entity and every filter for each of the 13 kinds), one string class per entity (the same string is the path name / session path of "
               "all kinds), fixed states and reader sets; counters are distinct numbers per field, metric -> field by name "
               "(snake case vs Go field name; metrics without such a field are left open and counted); samples without labels and "
               "completeness are not constrained by the statement (missing entities are DRIFT); the parser is trusted after its "
@@ -27,7 +27,7 @@ def needs_escape(cps):
 
 
 def run(ctx):
-    cfgs = ctx.pick(["Metrics_one.cfg", "Metrics_two.cfg"], ["Metrics_gen.cfg"])
+    cfgs = ctx.pick(["Metrics_quick.cfg"], ["Metrics_gen.cfg"])
     cases, ptests = [], []
     for cfg in cfgs:
         r = vf.mc(ctx, "Metrics", cfg, workers=min(vf.NCPU, 8), timeout=900, java_opts=["-Xmx6g"])
@@ -35,7 +35,7 @@ def run(ctx):
             c["id"] = len(cases)
             cases.append(c)
         ptests += r.tagged("PTEST") + r.tagged("STEST")
-    if len(cases) < 1000 or len(ptests) < 35:
+    if len(cases) < 700 or len(ptests) < 35:
         raise vf.Infra("generator produced only %d scenarios / %d parser tests" % (len(cases), len(ptests)))
     ctx.set("exhaustive", True)
 
@@ -113,22 +113,24 @@ def run(ctx):
                                 return a["v"]
         return []
 
-    alone = {}
+    alone, plainfail = {}, {}
     for c, mon, _ in bad:
         if c["n"] == 1:
             alone.setdefault((c["c1"], mon), c)
+        if classes_of(c) == ["plain"]:      # the plainest strings already fail: the failure does not depend on the string
+            plainfail[(mon, c["focus"], c["n"], c["filter"])] = c
     groups = {}
     for c, mon, badidx in bad:
-        blamed = [k for k in classes_of(c) if (k, mon) in alone]
-        if ("plain", mon) in alone and not any(needs_escape(cstr(c, k)) for k in blamed):
-            # the plainest string already fails: the failure does not depend on the string
-            keys = [(mon, "(any string)", alone[("plain", mon)])]
-        elif blamed:
-            keys = [(mon, k, alone[(k, mon)]) for k in blamed]
-        else:
-            keys = [(mon, "+".join(classes_of(c)) + " (%s, %d per kind, filter %s)" % (c["focus"], c["n"], c["filter"]), c)]
+        keys = [(mon, k, alone[(k, mon)]) for k in classes_of(c) if needs_escape(cstr(c, k)) and (k, mon) in alone]
+        pf = plainfail.get((mon, c["focus"], c["n"], c["filter"]))
+        if pf is not None:
+            keys.append((mon, "(any string)", pf))
+        if not keys:
+            keys = [(mon, k, alone[(k, mon)]) for k in classes_of(c) if (k, mon) in alone]
+        if not keys:
+            keys = [(mon, "+".join(classes_of(c)), c)]
         for (m, k, ex) in keys:
-            g = groups.setdefault((m, k), {"n": 0, "ex": ex, "focuses": set(), "badidx": badidx if ex is c else None})
+            g = groups.setdefault((m, k), {"n": 0, "ex": ex, "focuses": set(), "badidx": None})
             g["n"] += 1
             g["focuses"].add(c["focus"])
             if ex is c and g["badidx"] is None:
@@ -136,8 +138,8 @@ def run(ctx):
     for (mon, cls), g in sorted(groups.items()):
         ex = g["ex"]
         o = obs[ex["id"]]
-        cl = cls.split(" ")[0].split("+")
-        esc = any(needs_escape(cstr(ex, k)) for k in cl)
+        cl = classes_of(ex) if cls == "(any string)" else cls.split("+")
+        esc = cls != "(any string)" and any(needs_escape(cstr(ex, k)) for k in cl)
         cause = "label value written without escaping" if esc else "other"
         if mon == "Syntax":
             e0 = o["parse"]["errs"][0] if o["parse"]["errs"] else {"ln": 0, "msg": "HTTP status %s" % o["status"], "text": ""}
